@@ -212,11 +212,26 @@ const c19EmptyPw = "\x00"
 type c19MSession struct {
 	owner   string
 	email   string
+	groups  string // the user's groups as stored at login, comma-joined
 	created int
 }
 
+// c19Groups: the groups an emitted assertion states (eduPersonAffiliation), comma-joined.
+func c19Groups(d *decodedResponse) string {
+	var g []string
+	for _, at := range d.Attrs {
+		if at.Name == "urn:oid:1.3.6.1.4.1.5923.1.1.1.1" {
+			g = append(g, at.Values...)
+		}
+	}
+	return strings.Join(g, ",")
+}
+
+// c19User is the model's user record: pw "" = no hash stored; groups comma-joined.
+type c19User struct{ pw, email, groups string }
+
 type c19Model struct {
-	users     map[string]struct{ pw, email string } // pw "" = no hash
+	users     map[string]c19User // pw "" = no hash
 	services  map[string]string                     // name -> A / A2 / B
 	shortcuts map[string]string                     // name -> entity id
 	sessions  map[string]c19MSession                // id -> session
@@ -225,7 +240,7 @@ type c19Model struct {
 }
 
 func (m *c19Model) clone() *c19Model {
-	n := &c19Model{users: map[string]struct{ pw, email string }{}, services: map[string]string{}, shortcuts: map[string]string{}, sessions: map[string]c19MSession{}, cookie: m.cookie, notch: m.notch}
+	n := &c19Model{users: map[string]c19User{}, services: map[string]string{}, shortcuts: map[string]string{}, sessions: map[string]c19MSession{}, cookie: m.cookie, notch: m.notch}
 	for k, v := range m.users {
 		n.users[k] = v
 	}
@@ -388,7 +403,7 @@ func c19Actions() []c19Action {
 					if pw != "" {
 						u.pw = pw
 					}
-					u.email = email
+					u.email, u.groups = email, "" // the record is replaced: a body without groups stores none
 					m.users[name] = u
 				}
 				return false, "", "", ""
@@ -402,7 +417,7 @@ func c19Actions() []c19Action {
 	}, apply: func(m *c19Model, rep *c19Reply) (bool, string, string, string) {
 		if rep.code < 300 {
 			u := m.users["alice"]
-			u.pw, u.email = c19EmptyPw, "alice@example.com"
+			u.pw, u.email, u.groups = c19EmptyPw, "alice@example.com", ""
 			m.users["alice"] = u
 		}
 		return false, "", "", ""
@@ -417,7 +432,18 @@ func c19Actions() []c19Action {
 			if !existed {
 				u.pw = "p3"
 			}
-			u.email = "alice@changed.example.com"
+			u.email, u.groups = "alice@changed.example.com", ""
+			m.users["alice"] = u
+		}
+		return false, "", "", ""
+	}})
+	// a profile update that changes the user's groups: sessions opened before it keep describing the user as stored at their login
+	acts = append(acts, c19Action{name: "PUT user alice without password, groups=admins,interns", req: func(*c19Model) c19Req {
+		return c19Req{method: "PUT", path: "/users/alice", body: `{"name":"alice","email":"alice@changed.example.com","groups":["admins","interns"]}`}
+	}, apply: func(m *c19Model, rep *c19Reply) (bool, string, string, string) {
+		if rep.code < 300 {
+			u := m.users["alice"]
+			u.email, u.groups = "alice@changed.example.com", "admins,interns"
 			m.users["alice"] = u
 		}
 		return false, "", "", ""
@@ -429,7 +455,7 @@ func c19Actions() []c19Action {
 	}, apply: func(m *c19Model, rep *c19Reply) (bool, string, string, string) {
 		if rep.code < 300 {
 			u := m.users["bob"]
-			u.email = "bob@renamed.example.com"
+			u.email, u.groups = "bob@renamed.example.com", ""
 			m.users["bob"] = u
 		}
 		return false, "", "", ""
@@ -488,7 +514,7 @@ func c19Actions() []c19Action {
 	}
 	login := func(m *c19Model, rep *c19Reply, user string) {
 		if rep.setSess != "" {
-			m.sessions[rep.setSess] = c19MSession{owner: user, email: m.users[user].email, created: m.notch}
+			m.sessions[rep.setSess] = c19MSession{owner: user, email: m.users[user].email, groups: m.users[user].groups, created: m.notch}
 			m.cookie = rep.setSess
 		}
 	}
@@ -528,7 +554,7 @@ func c19Actions() []c19Action {
 					acs, reg := m.registry()[iss.ent]
 					ses, live := m.liveSession(cookieOf(m))
 					if reg && live && cookieOf(m) != "" {
-						return true, ses.email, acs, iss.ent
+						return true, ses.email + "\x00" + ses.groups, acs, iss.ent
 					}
 					return false, "", "", ""
 				}})
@@ -546,7 +572,7 @@ func c19Actions() []c19Action {
 					return false, "", "", "" // the request is refused before credentials are looked at
 				}
 				if credsOK(m, cr.u, cr.p) {
-					email := m.users[cr.u].email
+					email := m.users[cr.u].email + "\x00" + m.users[cr.u].groups
 					login(m, rep, cr.u)
 					return true, email, acs, iss.ent
 				}
@@ -571,7 +597,7 @@ func c19Actions() []c19Action {
 				acs, reg := m.registry()[ent]
 				ses, live := m.liveSession(cookieOf(m))
 				if has && reg && acs != c19ArtN && live && cookieOf(m) != "" {
-					return true, ses.email, acs, ent
+					return true, ses.email + "\x00" + ses.groups, acs, ent
 				}
 				return false, "", "", ""
 			}})
@@ -721,13 +747,13 @@ func init() {
 }
 
 func c19Initials() []*c19State {
-	empty := &c19State{store: &c19Store{data: map[string]string{}}, m: &c19Model{users: map[string]struct{ pw, email string }{}, services: map[string]string{}, shortcuts: map[string]string{}, sessions: map[string]c19MSession{}}, path: []string{"init:empty"}}
+	empty := &c19State{store: &c19Store{data: map[string]string{}}, m: &c19Model{users: map[string]c19User{}, services: map[string]string{}, shortcuts: map[string]string{}, sessions: map[string]c19MSession{}}, path: []string{"init:empty"}}
 	seeded := &c19State{store: &c19Store{data: map[string]string{}}, m: empty.m.clone(), path: []string{"init:seeded"}}
 	put := func(k string, v interface{}) { b, _ := json.Marshal(v); seeded.store.data[k] = string(b) }
 	put("/users/alice", samlidp.User{Name: "alice", Email: "alice@example.com", HashedPassword: minHash("p1"), Groups: []string{"staff"}})
 	put("/users/bob", samlidp.User{Name: "bob", Email: "bob@example.com"})
-	seeded.m.users["alice"] = struct{ pw, email string }{"p1", "alice@example.com"}
-	seeded.m.users["bob"] = struct{ pw, email string }{"", "bob@example.com"}
+	seeded.m.users["alice"] = c19User{"p1", "alice@example.com", "staff"}
+	seeded.m.users["bob"] = c19User{"", "bob@example.com", ""}
 	var md saml.EntityDescriptor
 	xml.Unmarshal(c19Metadata("A"), &md)
 	put("/services/s1", samlidp.Service{Name: "s1", Metadata: md})
@@ -860,8 +886,12 @@ func c19Step(s *c19State, a c19Action, faults bool, depth int) (*c19State, []str
 		if derr != nil {
 			viols = append(viols, "assertion-undecodable|"+derr.Error()+"\n"+ctx)
 		} else {
-			if d.NameID != wantName {
-				viols = append(viols, fmt.Sprintf("assertion-describes-wrong-user/%s|NameID %q, the user as stored at login has %q\n%s", actClass(a.name), d.NameID, wantName, ctx))
+			wantMail, wantGroups, _ := strings.Cut(wantName, "\x00")
+			if d.NameID != wantMail {
+				viols = append(viols, fmt.Sprintf("assertion-describes-wrong-user/%s|NameID %q, the user as stored at login has %q\n%s", actClass(a.name), d.NameID, wantMail, ctx))
+			}
+			if g := c19Groups(d); g != wantGroups {
+				viols = append(viols, fmt.Sprintf("assertion-describes-wrong-groups/%s|the assertion states the groups %q, the user as stored at login has %q\n%s", actClass(a.name), g, wantGroups, ctx))
 			}
 			if d.Destination != wantACS || d.Form.Action != wantACS {
 				viols = append(viols, fmt.Sprintf("assertion-to-wrong-endpoint/%s|Destination %q / form action %q, the currently stored service has ACS %q\n%s", actClass(a.name), d.Destination, d.Form.Action, wantACS, ctx))
@@ -1107,7 +1137,7 @@ func c19RunLiveSeq(t *core.T, acts []c19Action, ini *c19State, seq []int, report
 		if got != may {
 			f = "live/assertion-verdict-differs-from-model/" + actClass(a.name)
 		} else if got {
-			if d, derr := decodeIDPForm(rep.body, nil, samlgen.Key("idpec").Cert, c19T[m.notch]); derr == nil && (d.NameID != wantName || d.Destination != wantACS) {
+			if d, derr := decodeIDPForm(rep.body, nil, samlgen.Key("idpec").Cert, c19T[m.notch]); derr == nil && (d.NameID+"\x00"+c19Groups(d) != wantName || d.Destination != wantACS) {
 				f = "live/assertion-content-differs-from-model/" + actClass(a.name)
 			}
 		}
